@@ -1173,7 +1173,7 @@ class DomainMapping(CanBehaveLikeAVariable[T], ABC):
             # already bound (the same expression object was evaluated before, e.g. as an operand): as a condition, it is
             # the bound value that is interpreted as a boolean.
             self._is_false_ = is_condition and (bool(sources[self._id_].value) == self._invert_)
-            if self._yield_when_false_ or not self._is_false_:
+            if yield_when_false or not self._is_false_:
                 yield sources
             return
         # the child provides the values to map, it is not a condition: rows that fail the child's own conditions (a
@@ -1182,14 +1182,17 @@ class DomainMapping(CanBehaveLikeAVariable[T], ABC):
         for child_v in child_val:
             for v in self._apply_mapping_(child_v[self._child_._id_]):
                 values = copy(child_v)
+                # (decided with what THIS evaluation was asked for: the same expression object may be evaluated again,
+                # as an operand of something else, before this evaluation is resumed, and the attributes are shared)
                 if not is_condition:
                     # Used as a value (operand, argument, selected output): its truthiness is irrelevant.
-                    self._is_false_ = False
+                    is_false = False
                 elif (not self._invert_ and v.value) or (self._invert_ and not v.value):
-                    self._is_false_ = False
+                    is_false = False
                 else:
-                    self._is_false_ = True
-                if self._yield_when_false_ or not self._is_false_:
+                    is_false = True
+                if yield_when_false or not is_false:
+                    self._is_false_ = is_false
                     values[self._id_] = v
                     yield values
 
